@@ -105,6 +105,9 @@ fn oracle(c: &MsgCase, ev: &mut Ev) -> Outcome {
     if (n >= 2 && nonsorted) || injected {
         ev.nontrivial(fingerprint(&(c.payload(), c.chunk_size, &orders[0], format!("{:?}", c.fault))));
     }
+    if c.tail_merge > 0 && models.len() >= 2 && models.last().map(|m| m.payload.len()) > models.first().map(|m| m.payload.len()) {
+        ev.label("final-chunk-larger-than-the-others");
+    }
     ev.label(&format!("chunks:{}", match n { 0 => "0", 1 => "1", 2..=6 => "2-6", 7..=12 => "7-12", _ => ">12" }));
     ev.sample(|| format!("payload {} B, chunk size {}, {} chunks, fault {:?}, order {:?} -> {}", c.payload().len(), c.chunk_size, n, c.fault, orders[0], if reference.is_ok() { "Ok" } else { "Err" }));
     Ok(())
